@@ -312,15 +312,100 @@ func c04Helpers(c *Ctx) {
 	}
 	if fn := c.fn(rule, "(*ls.DB).verifyWithExecutor"); fn != nil {
 		for _, call := range callsTo(fn, nameIs("(*ls.DB).detectFullCheckpoint")) {
-			// known salts = {current header salts, ltx header salts}
-			okK := false
-			for _, e := range variadicElemsOfSlice(call.Common().Args[2]) {
-				_ = e
-				okK = true
+			// known salts = {current header salts, ..., salts of the last synced file}: the
+			// scan stops at the LAST element, which must be the generation litestream already
+			// copied (stopping at the current generation would end the scan at the first frame
+			// and no intermediate generation could ever be seen)
+			pairs := saltPairsLiteral(call.Common().Args[2])
+			okK := len(pairs) >= 2
+			if okK {
+				last := pairs[len(pairs)-1]
+				first := pairs[0]
+				okK = last[0] != nil && last[1] != nil && first[0] != nil && first[1] != nil &&
+					vFieldLoad("Header.WALSalt1", nil)(last[0]) && vFieldLoad("Header.WALSalt2", nil)(last[1]) &&
+					vU32At(nil, 16)(first[0]) && vU32At(nil, 20)(first[1])
 			}
-			c.check(okK, rule, fnName(fn)+": detectFullCheckpoint is given the current and the previous salts", c.pos(call), "two-element literal", "known salt list not recognised")
+			c.check(okK, rule, fnName(fn)+": detectFullCheckpoint is given {current header salts, …, salts of the last synced file} in that order", c.pos(call), "literal elements match",
+				"the known-salt list does not end with the last synced generation's salts: the frame-salt scan stops at the wrong generation and an unseen intermediate WAL generation goes undetected")
 		}
 	}
+	if fn := c.fn(rule, "(*ls.DB).detectFullCheckpoint"); fn != nil {
+		for _, call := range callsTo(fn, nameIs("(*ls.WALReader).FrameSaltsUntil")) {
+			// stop salt = knownSalts[len(knownSalts)-1]
+			ok := false
+			for _, o := range origins(call.Common().Args[2]) {
+				if u, isU := o.(*ssa.UnOp); isU {
+					if ia, isIA := u.X.(*ssa.IndexAddr); isIA && vParam("knownSalts")(ia.X) && isLenMinusOne(ia.Index, ia.X) {
+						ok = true
+					}
+				}
+			}
+			c.check(ok, rule, fnName(fn)+": the frame-salt scan stops at the last known salt", c.pos(call), "knownSalts[len-1]", "the scan stops at another element")
+		}
+	}
+}
+
+// saltPairsLiteral extracts the elements of a [][2]uint32{{a,b},{c,d},…} literal.
+func saltPairsLiteral(v ssa.Value) [][2]ssa.Value {
+	var outer *ssa.Alloc
+	for _, o := range origins(v) {
+		if sl, ok := o.(*ssa.Slice); ok {
+			if a, ok := sl.X.(*ssa.Alloc); ok {
+				outer = a
+			}
+		}
+	}
+	if outer == nil {
+		return nil
+	}
+	res := map[int64][2]ssa.Value{}
+	var maxI int64 = -1
+	for _, r := range *outer.Referrers() {
+		ia, ok := r.(*ssa.IndexAddr)
+		if !ok {
+			continue
+		}
+		i, ok := constInt(ia.Index)
+		if !ok {
+			continue
+		}
+		var pair [2]ssa.Value
+		for _, rr := range *ia.Referrers() {
+			st, ok := rr.(*ssa.Store)
+			if !ok || st.Addr != ssa.Value(ia) {
+				continue
+			}
+			// value: load of an inner [2]uint32 literal
+			if u, ok := st.Val.(*ssa.UnOp); ok {
+				if inner, ok := u.X.(*ssa.Alloc); ok {
+					for _, r2 := range *inner.Referrers() {
+						ja, ok := r2.(*ssa.IndexAddr)
+						if !ok {
+							continue
+						}
+						j, ok := constInt(ja.Index)
+						if !ok || j < 0 || j > 1 {
+							continue
+						}
+						for _, r3 := range *ja.Referrers() {
+							if s3, ok := r3.(*ssa.Store); ok && s3.Addr == ssa.Value(ja) {
+								pair[j] = s3.Val
+							}
+						}
+					}
+				}
+			}
+		}
+		res[i] = pair
+		if i > maxI {
+			maxI = i
+		}
+	}
+	var out [][2]ssa.Value
+	for i := int64(0); i <= maxI; i++ {
+		out = append(out, res[i])
+	}
+	return out
 }
 
 func variadicElemsOfSlice(v ssa.Value) []ssa.Value {
@@ -519,5 +604,9 @@ func c04Behind(c *Ctx) {
 	for _, p := range callsTo(fn, nameIs("(*ls.DB).Pos")) {
 		okF, why := failStopOK(fn, p)
 		c.check(okF, rule, name+": a failed local position read is an error", c.pos(p), "fail-stop", why)
+	}
+	// the replica maximum the decision is based on comes from a complete listing
+	if m := c.fn(rule, "(*ls.Replica).MaxLTXFileInfo"); m != nil {
+		c.floor(rule, listingCompleteness(c, rule, m), 1, "listing loop in Replica.MaxLTXFileInfo")
 	}
 }
